@@ -294,7 +294,10 @@ def m_lookups(ctx, case):
                     bytc["nic_v1"].setdefault(tc, set()).add((r[1][0], r[1][1]))
                     seen[("nic_v1", tc, s)] = (r[1][0], r[1][1])
                     rb = call(adsb.nic_v1, hx, bool(s))
-                    ctx.ev()
+                    rs_ = call(adsb.nic_v1, hx, str(s))
+                    ctx.ev(2)
+                    if rs_ != r:
+                        ctx.violation("lookup-differs-for-string-supplement", api="nic_v1", frame=hx, tc=tc, nics=s, with_int=r[1:], with_str=rs_[1:])
                     if rb != r:
                         ctx.violation("lookup-differs-for-bool-supplement", api="nic_v1", frame=hx, tc=tc, nics=s, with_int=r[1:], with_bool=rb[1:])
                 for b in (0, 1):
@@ -308,7 +311,11 @@ def m_lookups(ctx, case):
                         seen[("nic_v2", tc, s * 2 + b)] = (r[1][0], r[1][1])
                         # the supplement bits as bool (they are flags; bool is an int): same answer
                         rb = call(adsb.nic_v2, hx, bool(s), bool(b))
-                        ctx.ev()
+                        rs_ = call(adsb.nic_v2, hx, str(s), str(b))     # "int or string" per docstring
+                        ctx.ev(2)
+                        if rs_ != r:
+                            ctx.violation("lookup-differs-for-string-supplement", api="nic_v2", frame=hx, tc=tc, nica=s, nicbc=b,
+                                          with_int=r[1:], with_str=rs_[1:])
                         if rb != r:
                             ctx.violation("lookup-differs-for-bool-supplement", api="nic_v2", frame=hx, tc=tc, nica=s, nicbc=b,
                                           with_int=r[1:], with_bool=rb[1:])
